@@ -760,9 +760,12 @@ def partial_load(out, i, live, op, recipe, tol, fam, who):
     except Exception as e:  # noqa
         out.stats["probe:partial_load_fresh_unavailable_" + type(e).__name__] += 1
         return
-    was = driver.module_modes(M)
-    driver.set_mode(live, False) if M.training else None
+    # what users do before predicting: model.eval(); likelihood.eval() - also re-synchronises sub-modules switched on their own
+    modes = [(m, m.training) for m in M.modules()]
+    driver.set_mode(live, False)
     rm = driver.predict(M, driver.test_args(recipe, probe), probe, False)
+    for m, t in modes:
+        m.training = t
     if rm[0] == "ok" and rf[0] == "ok":
         bad, mx = compare.compare_obs(rm[1], rf[1], tol)
         out.stats["probe:prediction_after_partial_load_vs_fresh"] += 1
